@@ -22,7 +22,7 @@ from pyvc.verify import units_for                             # noqa: E402
 from pyvc.solve import discharge, get_values                  # noqa: E402
 from pyvc import concretise                                   # noqa: E402
 
-TOP_LEVEL = {"post", "raises", "frame", "lazy", "abandon", "invariant"}
+TOP_LEVEL = {"post", "raises", "frame", "lazy", "abandon", "invariant", "call-site", "lemma"}
 INTERNAL = {"inv-init", "inv-preserve", "decreases", "pre-call", "safety"}
 VENV_PY = "/venv/bin/python"
 
